@@ -15,6 +15,7 @@ VLI_MAX = (1 << 63) - 1
 
 def gen_history(rng):
     toks = ['i0']
+    if rng.random() < 0.3: toks.append('e0')      # an Index without Records: encoded, decoded, and the decoded one appended to
     if rng.random() < 0.5: toks.append('r0,%d' % rng.choice([1, 2, 3, 7]))
     live = {0}
     big = rng.random() < 0.15
